@@ -12,7 +12,7 @@ NGAS = 9  # opcode boundaries of the worker contract (PUSH1 PUSH1 SSTORE x3; the
 ATT = ["none", "exists", "fxdec", "oset"]
 GOV = ["none", "first", "middle", "last", "midwrite"]
 IBC = ["none", "memo0", "memo1", "memoInvalid", "alias", "unknown", "bech", "pairOff"]
-CALL_BASE = ["none", "revert0", "revert1", "pair1", "pair2", "pair3", "unknown", "gaslow"]
+CALL_BASE = ["none", "revert0", "revert1", "sct0", "sct1", "pair1", "pair2", "pair3", "unknown", "gaslow"]
 CALL_Q = CALL_BASE + ["gas0", "gas4", "gas8"]                       # a few opcode boundaries
 CALL_T = CALL_BASE + ["gas%d" % i for i in range(NGAS)]             # every executed opcode boundary
 REFUND = ["rA", "rB"]
@@ -30,12 +30,12 @@ def cfg(name, tiers, c, shards=14, rej_sample=0, **kw):
 MC = [
     dict(name="dev", tiers=["dev"], consts=consts(1, CALL_Q)),
     dict(name="q", tiers=["quick"], consts=consts(2, CALL_Q)),
-    dict(name="t", tiers=["thorough"], consts=consts(3, CALL_T)),
+    dict(name="t", tiers=["thorough"], consts=consts(4, CALL_T)),
 ]
 GEN = [
     cfg("dev", ["dev"], consts(1, CALL_Q)),
     cfg("q", ["quick"], consts(2, CALL_Q)),
-    cfg("t", ["thorough"], consts(3, CALL_T), shards=16),
+    cfg("t", ["thorough"], consts(4, CALL_T), shards=16),
 ]
 
 ASSUMPTIONS = [
@@ -58,6 +58,6 @@ specs.REGISTRY["C18"] = run
 specs.MANIFEST["C18"] = dict(
     category="model_checking",
     technique="TLA+ spec Tolerated.tla (four tolerated-failure boundaries, designated outcome per boundary) : TLC exhaustive model check + replay of every generated step on the real application with a differential full-store oracle (provoked failure vs designated outcome from the same pre-state) + TLC evaluation of the C18 formulas on recorded real behaviours",
-    text="For the four places where fxcore continues after a failure (observed event whose handler fails; inbound bridge call whose contract call fails, through executeClaim; passed proposal one of whose messages fails; IBC packet whose conversion or memo call fails, through IBC core) and every failure point (first/middle/last token or message, message failing after its own write, contract reverting before/after its own writes, out of gas at opcode boundaries, token pair disabled, unknown token, invalid call packet, bech32 receiver) the complete multistore after the step equals the designated outcome produced from the same pre-state by the same code with a sub-step that fails at once (residue = 0 differing keys), and the designated outcome itself is right: event marked observed; exactly one refund record to the refund address with exactly the call's tokens while no party gains or loses a token and nothing stays parked; proposal marked failed; error acknowledgement.",
-    note="bounded: histories of <=2 (quick) / <=3 (thorough) steps, three-token calls, two refund addresses (funded / unfunded), gas limits at a few (quick) / all (thorough) opcode boundaries of one callee; attestation handlers of this tree cannot fail after a write; trusted: TLC, the store dump, the masks listed in the assumptions",
+    text="For the four places where fxcore continues after a failure (observed event whose handler fails; inbound bridge call whose contract call fails, through executeClaim; passed proposal one of whose messages fails; IBC packet whose conversion or memo call fails, through IBC core) and every failure point (first/middle/last token or message, message failing after its own write, contract reverting before/after its own writes (also through the send-call-to memo path), out of gas at opcode boundaries, token pair disabled, unknown token, invalid call packet, bech32 receiver) the complete multistore after the step equals the designated outcome produced from the same pre-state by the same code with a sub-step that fails at once (residue = 0 differing keys), and the designated outcome itself is right: event marked observed; exactly one refund record to the refund address with exactly the call's tokens while no party gains or loses a token and nothing stays parked; proposal marked failed; error acknowledgement.",
+    note="bounded: histories of <=2 (quick) / <=4 (thorough) steps, three-token calls, two refund addresses (funded / unfunded), gas limits at a few (quick) / all (thorough) opcode boundaries of one callee; attestation handlers of this tree cannot fail after a write; trusted: TLC, the store dump, the masks listed in the assumptions",
     ref="5 (C18)")
